@@ -24,7 +24,7 @@ mvars == <<cvars, hist, lastOp, lastErr>>
 
 Proj(st, n, tl, ok) == [st |-> st, len |-> n, ok |-> ok, maxd |-> 0, tail |-> tl, trail |-> 0,
                         hdr |-> TRUE, trl |-> TRUE]
-Dec(st, n)          == [st |-> st, len |-> n, ok |-> TRUE]
+Dec(st, n)          == [st |-> st, len |-> n, ok |-> TRUE, hdr |-> TRUE]
 
 \* Candidate answers to a call; the contract filters them.
 Shapes == { <<"more", "empty">>, <<"more", "mid">>, <<"more", "sync">>, <<"done", "final">> }
